@@ -135,8 +135,30 @@ def entryGameModuleD (args : List String) : String :=
     | _, _, _ => "bad-case"
   | _ => "bad-case"
 
+def showToggleD : Toggle → String
+  | .skip => "s" | .try_ => "t" | .enforce => "e"
+
+def showExtraReq (e : Dispatch.Extra) : String :=
+  let o {α} (f : α → String) (x : Option α) : String := match x with | some a => f a | none => "-"
+  s!"{o showStr e.hostname}:{o (fun (v : Int) => toString v) e.protocolVersion}:{o showToggleD e.gatherPlayers}:{o showToggleD e.gatherRules}:{o (fun b => if b then "T" else "F") e.checkAppId}"
+
+/-- `extra-conv <E…|->`: the settings as given (the setters store what they are given), each protocol's conversion,
+and `into_extra` of the converted settings -/
+def entryExtraConv (args : List String) : String :=
+  match args with
+  | [x] =>
+    match parseExtra x with
+    | some given =>
+      let e : Dispatch.Extra := given.getD ⟨none, none, none, none, none⟩
+      let v := e.toValve
+      let u := e.toUnreal2
+      let m := e.toMinecraft
+      s!"X {showExtraReq e} | valve {showToggleD v.players}{showToggleD v.rules}{if v.checkAppId then "T" else "F"} u2 {showToggleD u.mutatorsAndRules}{showToggleD u.players} mc {showStr m.hostname}/{m.protocolVersion} | vx {showExtraReq (Dispatch.valveIntoExtra v)} ux {showExtraReq (Dispatch.unreal2IntoExtra u)}"
+    | none => "bad-case"
+  | _ => "bad-case"
+
 def dispatchEntries : List (String × (List String → String)) :=
-  [("dispatch", entryDispatch), ("dispatch-module", entryDispatchModule),
+  [("dispatch", entryDispatch), ("dispatch-module", entryDispatchModule), ("extra-conv", entryExtraConv),
    ("game-generic", entryGameGenericD), ("game-module", entryGameModuleD)]
 
 end Gd.Run
